@@ -9,6 +9,8 @@ points of the dedicated extended addition (`C15.addext_self_zero`, the listed fi
 Only property theorems live here.
 -/
 import Ymq.Lemmas.EcmCurveGroup
+import Ymq.Lemmas.EcmCurveTotal
+import Ymq.Props.C15
 import Ymq.Props.C16
 import Ymq.Props.C17
 
@@ -182,6 +184,63 @@ theorem stage2_hit_product_zero {F : Type} [CommRing F] [IsDomain F] (steps : Li
     rw [List.getElem?_take_of_lt hib, List.getElem?_map, hb']; rfl
 
 end Ring
+
+section NoPanic
+open Ymq.Gen.Curves Ymq.Curve
+variable {R : Type} [CommRing R]
+
+/-- the curve formulas preserve "on the curve" (projective) and "on the curve and on the quadric" (extended): the
+closure theorems of Props/C15.lean collected -/
+theorem curve_ops_closed (d : R) (tw : Bool) :
+    OpsInv (curveOps d tw) (ecmIsValid d tw) (fun e => ecmIsValidext d tw e ∧ OnQuadric e) where
+  zero := by cases tw <;> simp [curveOps, ecmIsValid, ecmIsValidSides]
+  toExt := fun p hp => to_extended_closed d tw p hp
+  toProj := fun e he => toProj_valid d tw e he.1 he.2
+  double := fun p hp => double_closed d tw p hp
+  dblext := fun p hp => dblext_closed d tw p hp
+  addext := fun a b ha hb => addext_closed d tw a b ha.1 ha.2 hb.1 hb.2
+  addp := fun a b ha hb => addextproj_closed d tw a b ha.1 ha.2 hb.1 hb.2
+  subp := fun a b ha hb => subextproj_closed d tw a b ha.1 ha.2 hb.1 hb.2
+
+/-- **`ecm_curve` never panics on the domain `ecm()` passes** (the model returns a value): over any commutative ring,
+for the translated curve formulas, a generator on the curve (`select_curve_sound`: every curve `ecm()` runs has one),
+an `is_valid` that accepts the points of the curve, exponent blocks that fit their words, an even `d1 ≥ 4` that is a
+`u64`, and `check_gcd_factor` / `roots_eval` that return (hypotheses `CheckTotal`, `hre`: these are the routines of C16
+and C10, not re-proved here): no chain builder overflows, no `gaps` table is indexed outside, the gap
+arithmetic `b - bexp`, `gap / 2 - 1` never underflows, `assert_eq!(bs[0], 1)` and `assert!(c.is_valid(&g))` hold. -/
+theorem ecm_curve_no_panic {X : Type} (env : Env (Pt R) (Ext R) X) (d : R) (tw : Bool) (hops : env.ops = curveOps d tw)
+    (hvalid : ∀ p, ecmIsValid d tw p → env.valid p = true) (hc : CheckTotal env.check)
+    (hre : ∀ a b, env.rootsEval a b ≠ none) (factors larges : List Nat) (hf : ∀ f ∈ factors, f < 2 ^ 64)
+    (hl : ∀ f ∈ larges, f < 2 ^ 1024) {d1 : Nat} (hev : 2 ∣ d1) (h4 : 4 ≤ d1) (hd : d1 < 2 ^ 64) (d2 : Nat)
+    (g : Pt R) (hg : ecmIsValid d tw g) :
+    ecmCurve env factors larges d1 d2 g ≠ none :=
+  ecmCurve_total env (hops ▸ curve_ops_closed d tw) hvalid hc hre factors larges hf hl hev h4 hd d2 g hg
+
+/-- … as `ecm()` calls it: `SmoothBase::new(b1, true)` for `b1 ≤ 2^24` (C17) and `stage2_params(b2)` for any `b2`
+(every row of the table has an even `d1 ≥ 4` below `2^64`). -/
+theorem ecm_curve_b_no_panic {X : Type} (env : Env (Pt R) (Ext R) X) (d : R) (tw : Bool) (hops : env.ops = curveOps d tw)
+    (hvalid : ∀ p, ecmIsValid d tw p → env.valid p = true) (hc : CheckTotal env.check)
+    (hre : ∀ a b, env.rootsEval a b ≠ none) (b1 b2 : Nat) (hb : b1 ≤ 2 ^ 24) (g : Pt R) (hg : ecmIsValid d tw g) :
+    ecmCurveB env b1 b2 g ≠ none := by
+  obtain ⟨f, l, h1, h2, h3, _⟩ := Ymq.C17.smoothbase_divides_16M b1 true hb
+  obtain ⟨row, hr1, hr2, _⟩ := Ymq.Checked.nearestRow_spec Stage2.ecmTable (by decide) b2 1
+  have hrows : (Stage2.ecmTable.all fun r => r.2.1 % 2 == 0 && decide (4 ≤ r.2.1) && decide (r.2.1 < 2 ^ 64)) = true := by
+    decide
+  have hrow := List.all_eq_true.mp hrows row hr2
+  simp only [Bool.and_eq_true, beq_iff_eq, decide_eq_true_eq] at hrow
+  obtain ⟨lab, d1, d2⟩ := row
+  unfold ecmCurveB
+  have hsel : Stage2.stage2Select b2 1 = some (lab, d1, d2) := hr1
+  simp only [h1, hsel]
+  exact ecm_curve_no_panic env d tw hops hvalid hc hre f l h2 h3 (Nat.dvd_of_mod_eq_zero hrow.1.1) hrow.1.2 hrow.2 d2 g hg
+
+end NoPanic
+
+/-- non-vacuity of `ecm_curve_no_panic` / `ecm_curve_b_no_panic`: an environment over ℤ satisfying every hypothesis -/
+example : ecmCurveB (⟨curveOps (1 : Int) false, 35, fun p => p.x, fun p => (p.y, p.z), 1, (· * ·), (· - ·), fun _ => true,
+    fun _ => some none, fun _ _ => some []⟩ : Env (Ymq.Gen.Curves.Pt Int) (Ymq.Gen.Curves.Ext Int) Int) 16 660 ⟨1, 2, 1⟩ ≠ none :=
+  ecm_curve_b_no_panic _ 1 false rfl (fun _ _ => rfl) (fun _ => ⟨by simp, by simp⟩) (fun _ _ => by simp) 16 660 (by decide)
+    ⟨1, 2, 1⟩ (by simp [Ymq.Gen.Curves.ecmIsValid, Ymq.Gen.Curves.ecmIsValidSides])
 
 /-! ## non-vacuity -/
 
